@@ -81,3 +81,32 @@ Print Assumptions C16_emit_second_write.
    on handles). With it, emit_file (prepass (prepass n)) = emit_file (prepass n) for every n. *)
 Definition C16_prepass_idempotent_full : Prop := forall n n1,
   prepass n = Some n1 -> ordered n1 = true.
+
+(* PROVED under the conditions the EDIF namespace guarantees (library identifiers pairwise different,
+   cell identifiers of a library pairwise different, case-insensitively) and "no cell instantiates
+   itself" (on such a netlist the real pre-pass does not return): the reordering ends in dependency
+   order, so the pre-pass is idempotent and the second document is the first one:
+   emit_file (prepass (prepass n)) = emit_file (prepass n). The unconditional
+   C16_prepass_idempotent_full stays a Definition (with duplicate identifiers the lookups by
+   identifier of the value model do not determine the objects). *)
+From SV Require Import Fmt.EdifTopo Proofs.EdifTopoProofs Proofs.EdifPrepass.
+Theorem C16_prepass_result_ordered : forall n n1,
+  uniq_ci (map li_ident (nf_libs n)) = true ->
+  (forall L, In L (nf_libs n) -> uniq_ci (map ce_ident (li_cells L)) = true /\ irreflexive (cell_deps L)) ->
+  prepass n = Some n1 -> ordered n1 = true.
+Proof. exact prepass_result_ordered. Qed.
+Print Assumptions C16_prepass_result_ordered.
+
+Theorem C16_prepass_idempotent : forall n n1,
+  uniq_ci (map li_ident (nf_libs n)) = true ->
+  (forall L, In L (nf_libs n) -> uniq_ci (map ce_ident (li_cells L)) = true /\ irreflexive (cell_deps L)) ->
+  prepass n = Some n1 -> prepass n1 = Some n1.
+Proof. exact prepass_idempotent. Qed.
+Print Assumptions C16_prepass_idempotent.
+
+Theorem C16_emit_prepass_idempotent : forall ts prog fl n n1 n2,
+  uniq_ci (map li_ident (nf_libs n)) = true ->
+  (forall L, In L (nf_libs n) -> uniq_ci (map ce_ident (li_cells L)) = true /\ irreflexive (cell_deps L)) ->
+  prepass n = Some n1 -> prepass n1 = Some n2 -> emit_file ts prog fl n2 = emit_file ts prog fl n1.
+Proof. exact emit_prepass_idempotent. Qed.
+Print Assumptions C16_emit_prepass_idempotent.
